@@ -817,6 +817,13 @@ Definition ex_hop : request :=
 (* K2 witness: GET carrying Content-Length: 0 *)
 Definition ex_cl0 : request := mk_req s_get [(content_length, [s_zero])] s_k1 [] (Some []).
 
+(* both at once: Connection names a covered header that is present AND Content-Length: 0 on a GET *)
+Definition ex_both : request :=
+  mk_req s_get [(authorization, [s_bearer]); (connection, [authorization]); (content_length, [s_zero])] s_k1 [] (Some []).
+(* a Connection token naming an ABSENT covered header (harmless) together with Content-Length: 0 *)
+Definition ex_harmless_k1_k2 : request :=
+  mk_req s_get [(connection, [content_md5]); (content_length, [s_zero])] s_k1 [] (Some []).
+
 Definition dc := documented_covered.
 Definition all_protected := dc ++ dc ++ sig_headers.
 
